@@ -47,8 +47,10 @@ def probes_of(model):
 
 
 def run_contracts(rep, contracts, table=None, tier="quick", replayers=None, pid=None, budget_s=None, solve_budget_s=None,
-                  max_paths=400):
-    """replayers: list of (regex on obligation label, fn(agg_entry) -> (found, payload, signature or None, what))"""
+                  max_paths=400, only=None):
+    """replayers: list of (regex on obligation label, fn(agg_entry) -> (found, payload, signature or None, what))
+    only: regex; obligations whose label does not match belong to another property's ledger - a refutation of one of them is
+    neither a violation nor an undecided item of THIS property (the caller drops them from the ledger as well)"""
     opts = dict(timeout_ms=10000, budget_s=budget_s or (240 if tier == "quick" else 1800),
                 solve_budget_s=solve_budget_s or (20 if tier == "quick" else 90), max_paths=max_paths)
     results = verify_all(contracts, table or {}, **opts)
@@ -60,6 +62,8 @@ def run_contracts(rep, contracts, table=None, tier="quick", replayers=None, pid=
         if a["status"] != "refuted":
             continue
         label = a["label"]
+        if only and not re.search(only, label):
+            continue
         found, payload, sig, what = False, {"models": a["models"][:2]}, None, None
         for rx, fn in (replayers or []):
             if re.search(rx, label):
